@@ -132,3 +132,30 @@ Lemma lag_rank_real d d2 k :
 Proof.
   intros Hdp Htol Hd2. rewrite (lag_rank_in_class d Hdp d2 k Hd2). apply in_class_real; assumption.
 Qed.
+
+(* irregular lags: the interval test of getLagRank, written on squares in the model, is  b_k < sqrt(d2) <= b_{k+1} *)
+Lemma in_break_real (lo hi d2 : Q) : (0 <= d2)%Q ->
+  (((lo < 0)%Q \/ (lo * lo < d2)%Q) /\ (0 <= hi)%Q /\ (d2 <= hi * hi)%Q
+   <-> Q2R lo < sqrt (Q2R d2) <= Q2R hi).
+Proof.
+  intro Hd2. apply Qle_Rle in Hd2. rewrite RMicromega.Q2R_0 in Hd2.
+  pose proof (sqrt_pos (Q2R d2)) as Hs.
+  split.
+  - intros (A & B & C). apply Qle_Rle in B. rewrite RMicromega.Q2R_0 in B. apply Qle_Rle in C. rewrite Q2R_mult in C.
+    split.
+    + destruct A as [A|A].
+      * apply Qlt_Rlt in A. rewrite RMicromega.Q2R_0 in A. lra.
+      * apply Qlt_Rlt in A. rewrite Q2R_mult in A.
+        destruct (Rle_or_lt 0 (Q2R lo)) as [L|L]; [|lra].
+        destruct (Rle_or_lt (sqrt (Q2R d2)) (Q2R lo)) as [M|M]; [|exact M].
+        apply (sqrt_le_sq (Q2R lo) (Q2R d2) L Hd2) in M. lra.
+    + apply (sqrt_le_sq (Q2R hi) (Q2R d2) B Hd2). exact C.
+  - intros [A B]. split; [|split].
+    + destruct (Rle_or_lt 0 (Q2R lo)) as [L|L].
+      * right. apply Rlt_Qlt. rewrite Q2R_mult. apply (sqrt_lt_sq (Q2R lo) (Q2R d2) L Hd2) in A || idtac.
+        destruct (Rle_or_lt (Q2R d2) (Q2R lo * Q2R lo)) as [M|M]; [|exact M].
+        apply (sqrt_le_sq (Q2R lo) (Q2R d2) L Hd2) in M. lra.
+      * left. apply Rlt_Qlt. rewrite RMicromega.Q2R_0. exact L.
+    + apply Rle_Qle. rewrite RMicromega.Q2R_0. lra.
+    + apply Rle_Qle. rewrite Q2R_mult. apply (sqrt_le_sq (Q2R hi) (Q2R d2)); [lra|exact Hd2|exact B].
+Qed.
